@@ -161,6 +161,7 @@ func GenOptions(t *rapid.T, b Bias, nShards int) Options {
 	}
 	o.IdleOn = pct(t, b.PIdleOn, "idleOn")
 	o.DisableAlleviate = rapid.IntRange(0, 3).Draw(t, "disableAlleviate") == 0
+	o.TargetLimit = rapid.SampledFrom([]int{0, 0, 0, 1, 2, 3}).Draw(t, "targetLimit")
 	return o
 }
 
